@@ -204,7 +204,8 @@ def suites(tier, seed):
         for m in mutations(rnd, body)[: (200 if thorough else 40)]:
             muts.append({"entry": rnd.choice(["rule", "scenario", "steps"]), "text": "\n".join(m) + "\n", "lang": (None if lang == "en" else lang)})
         rbody = [{"en": "Rule: R", "de": "Regel: R"}[lang]] + body
-        for m in rnd.sample(mutations(rnd, rbody), 40 if thorough else 15):
+        rmuts = mutations(rnd, rbody)
+        for m in rnd.sample(rmuts, min(len(rmuts), 40 if thorough else 15)):
             muts.append({"entry": "rule", "text": "\n".join(m) + "\n", "lang": (None if lang == "en" else lang)})
     flt = []
     for _ in range(80 if thorough else 20):
